@@ -216,6 +216,9 @@ def rejecting_edges(g):
                 continue
             if gd.cond[0] in ('true', 'false') and isinstance(gd.cond[1], tuple) and gd.cond[1][0] == 'phi':
                 continue        # && / || plumbing temporaries
+            if gd.cond[0] in ('present', 'absent') and isinstance(gd.cond[1], tuple) and gd.cond[1][0] in ('phi', 'variant') \
+                    and all(isinstance(a, tuple) and a[0] == 'variant' for a in alts(gd.cond[1])):
+                continue        # an Option built in place from an earlier decision (`cond.then_some(v).ok_or(e)`): propagation
             out.append(gd)
     return out
 
@@ -246,6 +249,13 @@ def require_overflow_checks(P, rep, rule):
     rep.check(bool(prof.get('overflow_checks')), rule, 'release-profile:overflow-checks',
               '[profile.release] overflow-checks = true in /repo/Cargo.toml (the arithmetic the rules accept as "checked" only traps with it)',
               'Cargo.toml', 'overflow-checks = %s' % prof.get('raw'))
+
+
+def is_mu(t):
+    """a loop-carried value, possibly a component of a loop-carried tuple / Ok(..) accumulator (fold / try_fold)"""
+    while isinstance(t, tuple) and t and t[0] in ('field', 'payload'):
+        t = t[2] if t[0] == 'field' else t[3]
+    return isinstance(t, tuple) and bool(t) and t[0] == 'mu'
 
 
 def is_zero(t):
